@@ -171,9 +171,9 @@ def run_shape(shape):
 
     n = n_b * n_o * n_t
     for path in eng.explore(body):
-        acc.paths += 1
-        if acc.reachable is None:
-            acc.reachable = prover.satisfiable(path.premises) == "sat"
+        acc.begin(prover, path)
+        if acc.reachable is not True:
+            acc.reach(prover.satisfiable(path.premises))
         if path.kind == "exc":
             acc.structural("harness", False, detail=repr(path.value) + (path.tb or "")[-600:], cex={"kind": "exception", "exc": type(path.value).__name__, "getter": "?"})
             continue
